@@ -206,6 +206,9 @@ def main():
     if hook["h"]:
         hook["h"].close()
     C.models_used |= stdmodels.USED
+    # part C: the reporting layer of `garden check` copies positions unchanged
+    from checks import c23b
+    c23b.run_report_kernel(C)
     C.finish()
 
 
